@@ -144,6 +144,8 @@ type pgStore struct {
 	files map[string][]byte
 	dirs  map[string]bool
 	objs  []*pgObj
+	// putOnly: see handlers()
+	putOnly bool
 }
 
 func newPgStore(g *pgGate) *pgStore {
@@ -151,8 +153,16 @@ func newPgStore(g *pgGate) *pgStore {
 }
 
 func (s *pgStore) handlers() sftp.Handlers {
+	if s.putOnly {
+		// FilePut without OpenFileWriter: handles opened for writing are served through Filewrite (method "Put")
+		return sftp.Handlers{FileGet: s, FilePut: pgPutOnly{s}, FileCmd: s, FileList: s}
+	}
 	return sftp.Handlers{FileGet: s, FilePut: s, FileCmd: s, FileList: s}
 }
+
+type pgPutOnly struct{ s *pgStore }
+
+func (p pgPutOnly) Filewrite(r *sftp.Request) (io.WriterAt, error) { return p.s.Filewrite(r) }
 
 func (s *pgStore) putFile(p string, b []byte) { s.mu.Lock(); s.files[p] = b; s.mu.Unlock() }
 func (s *pgStore) putDir(p string)            { s.mu.Lock(); s.dirs[p] = true; s.mu.Unlock() }
@@ -1520,6 +1530,18 @@ func (g *pgGen) step() {
 		r.Read(pl)
 		g.add(&pgReq{op: "EXTENDED(unknown)", typ: fxpExtended, ext: "frobnicate@example.com", id: id,
 			frame: rawExtended(id, "frobnicate@example.com", pl), cls: pgClsCmdFree, slot: -1}, false)
+	case w < 120: // SETSTAT / FSETSTAT whose attribute block is shorter than its flags announce: refused before any backend call
+		id := g.id()
+		flags := []uint32{1, 4, 8, 5}[r.Intn(4)]
+		full := attrBlock(flags, 77, 0, 0, 0o100600, 1500000000, 1500000000)
+		short := full[:r.Intn(len(full))]
+		if r.Intn(2) == 0 {
+			g.add(&pgReq{op: "SETSTAT(short-attrs)", typ: fxpSetstat, id: id, frame: rawSetstat(id, fmt.Sprintf("d/x%d", r.Intn(pgNDX+1)), flags, short), cls: pgClsCmdFree, slot: -1}, false)
+		} else {
+			g.bogusOK = true
+			_, h := g.pickSlot("|r|w|rw|", false)
+			g.add(&pgReq{op: "FSETSTAT(short-attrs)", typ: fxpFsetstat, id: id, frame: rawFsetstat(id, h, flags, short), cls: pgClsCmdFree, slot: -1}, true)
+		}
 	default: // one more data transfer on whatever is open: keeps the pool busy
 		if r.Intn(2) == 0 {
 			k := r.Intn(len(pgRoSizes))
